@@ -462,6 +462,24 @@ fn check_cli_files(ctx: &mut Ctx, text: &str) {
         } else if pt != b2 {
             ctx.violation(key, format!("the -p file differs from the API rendering of the same tree:\n{}\nvs\n{}", String::from_utf8_lossy(&pt), String::from_utf8_lossy(&b2)), case);
         }
+        // -p and -d naming the SAME file: whichever export is written last, the file must be
+        // exactly one of the two renderings (a readable graph), not a mixture
+        if vi == 0 {
+            let case = json!({"part": "cli", "text": text, "variant": vi, "same_file": true});
+            ctx.begin_case(|| case.clone());
+            ctx.count("evaluations", 1);
+            ctx.count("cli_runs", 1);
+            let f = crate::cli::scratch_file("both.dot", b"stale contents of an earlier run that are longer than any export of a small formula ........................................................................................................................................................................................................................................\n");
+            let args: Vec<String> = vec![format!("--evaluate={text}"), "-p".into(), f.display().to_string(), "-d".into(), f.display().to_string()];
+            let r2 = crate::cli::run_bin("rsbdd", &args, None, &[]);
+            let got = std::fs::read(&f).unwrap_or_default();
+            let key = format!("{TAG} rsbdd -p F -d F (same file): {text}");
+            if !r2.ok() {
+                ctx.violation(key, format!("rsbdd failed: {} {}", r2.describe(), r2.err_tail()), case);
+            } else if normalise_ids(&String::from_utf8_lossy(&got)) != normalise_ids(&api) && got != b2 {
+                ctx.violation(key, format!("the file is neither the diagram nor the parse tree:\n{}", String::from_utf8_lossy(&got)), case);
+            }
+        }
     }
 }
 
